@@ -37,7 +37,21 @@ COMPONENTS = {
 DIRS = ["p", "p/a", "p/a/b", "p/a/b/c", "p/s", "."]
 
 
+EMITTER_OPTS = [("emit_mode", '"Stdout"'), ("emit_mode", '"Json"'), ("emit_mode", '"Checkstyle"'), ("make_backup", "true"),
+                ("print_misformatted_file_names", "true"), ("emit_mode", '"Diff"'), ("emit_mode", '"Coverage"')]
+
+
 def generate(rng, tier):
+    if rng.chance(4):
+        # lane E: an option that steers the emitter, in the nearest rustfmt.toml versus the same file named with
+        # --config-path: where the result goes (standard output, the file, a backup) must be the same
+        k, val = rng.choice(EMITTER_OPTS)
+        d = rng.choice(["p", "p/a"])
+        cfgname = rng.choice(["rustfmt.toml", ".rustfmt.toml"])
+        files = {os.path.join(d, cfgname): "unstable_features = true\n%s = %s\n" % (k, val),
+                 os.path.join(d, "probe0.rs"): gen_config.PROBE, "home/.keep": ""}
+        return {"lane": "emitter", "world": {"files": files}, "cfg": os.path.join(d, cfgname), "probe": os.path.join(d, "probe0.rs"),
+                "opt": "%s=%s" % (k, val.strip('"')), "cwd": rng.choice([".", d]), "hashseed": rng.below(1 << 32)}
     files = {}
     configs = {}  # rel path -> opts
     linked = {}   # config path that is a symlink -> its target
@@ -265,7 +279,33 @@ def parse_dump(text):
     return d
 
 
+def _lane_emitter(case):
+    v = Verdict()
+    with core.Scratch() as sc:
+        outcomes = []
+        for via in ("discovered", "config-path"):
+            sc.fresh_world(case["world"])
+            snap0 = core.snapshot(sc.root)
+            argv = ["--color", "never"] + (["--config-path", "$ROOT/" + case["cfg"]] if via == "config-path" else []) + [os.path.relpath(case["probe"], case["cwd"])]
+            r = core.run_inv(sc, {"argv": argv, "cwd": case["cwd"], "env": {"HOME": "$ROOT/home"}, "hashseed": case["hashseed"]})
+            v.account(r)
+            changed = sorted(core.snap_diff(snap0, core.snapshot(sc.root)))
+            ab = core.abnormal(r)
+            if ab:
+                v.add("C14:emitter-option|abnormal|%s" % ab, "%s via %s: status=%s" % (case["opt"], via, r.status()))
+            outcomes.append((r.stdout.replace(sc.root.encode(), b"$ROOT"), changed, r.exit))
+        a, b = outcomes
+        if a != b:
+            what = "changed files %s vs %s" % (a[1], b[1]) if a[1] != b[1] else "standard output (%d vs %d bytes)" % (len(a[0]), len(b[0])) if a[0] != b[0] else "status %s vs %s" % (a[2], b[2])
+            v.add("C14:discovered-vs-config-path|emitter-option", "%s in the nearest %s and the same file through --config-path behave differently: %s" % (case["opt"], os.path.basename(case["cfg"]), what))
+        v.probe("emitter-option:" + case["opt"].split("=")[0])
+        v.sample = {"lane": "emitter", "opt": case["opt"]}
+    return v
+
+
 def execute(case):
+    if case.get("lane") == "emitter":
+        return _lane_emitter(case)
     v = Verdict()
     probes = case["probes"]
     cli = case["cli"]
@@ -453,6 +493,8 @@ def execute(case):
 
 
 def shrinks(case):
+    if case.get("lane") == "emitter":
+        return
     cli = case["cli"]
     for k in list(cli["config"]):
         c = copy.deepcopy(case); del c["cli"]["config"][k]; yield c
